@@ -389,21 +389,21 @@ Proof. vm_compute. reflexivity. Qed.
 
 (* --- execution PUT --- *)
 
-Lemma exec_put_call : forall present st desc env,
-  o_call (exec_put present st desc env) <> NoCall ->
+Lemma exec_put_call : forall present cur st desc env,
+  o_call (exec_put present cur st desc env) <> NoCall ->
   present = true /\ desc = false /\ st <> "" /\
-  o_upd_desc (exec_put present st desc env) = false /\
-  o_upd_env (exec_put present st desc env) = false /\
-  o_status (exec_put present st desc env) = 200 /\
-  ( (parse_state st = PAUSED /\ o_call (exec_put present st desc env) = PauseWf) \/
-    (parse_state st = RUNNING /\ o_call (exec_put present st desc env) = ResumeWf env) \/
+  o_upd_desc (exec_put present cur st desc env) = false /\
+  o_upd_env (exec_put present cur st desc env) = false /\
+  o_status (exec_put present cur st desc env) = 200 /\
+  ( (parse_state st = PAUSED /\ o_call (exec_put present cur st desc env) = PauseWf) \/
+    (parse_state st = RUNNING /\ o_call (exec_put present cur st desc env) = ResumeWf env) \/
     (is_completed (parse_state st) = true /\ env = false /\
-     o_call (exec_put present st desc env) = StopWf (parse_state st)) ).
+     o_call (exec_put present cur st desc env) = StopWf (parse_state st)) ).
 Proof.
-  intros present st desc env. unfold exec_put.
+  intros present cur st desc env. unfold exec_put.
   destruct present; [|simpl; congruence].
   destruct (String.eqb st "") eqn:E.
-  - destruct desc, env; simpl; congruence.
+  - destruct desc, env, (env_updatable cur); simpl; congruence.
   - assert (st <> "") as Hne by (intro; subst; discriminate).
     destruct desc; [simpl; congruence|].
     destruct env, (parse_state st); cbv; intro H; try congruence;
@@ -414,46 +414,86 @@ Proof.
             | right; right; split; [reflexivity | split; reflexivity] ].
 Qed.
 
-Lemma exec_put_description_alone : forall present st desc env,
-  o_upd_desc (exec_put present st desc env) = true \/ o_upd_env (exec_put present st desc env) = true ->
-  st = "" /\ o_call (exec_put present st desc env) = NoCall /\ present = true.
+Lemma exec_put_description_alone : forall present cur st desc env,
+  o_upd_desc (exec_put present cur st desc env) = true \/ o_upd_env (exec_put present cur st desc env) = true ->
+  st = "" /\ o_call (exec_put present cur st desc env) = NoCall /\ present = true /\
+  (env = true -> env_updatable cur = true).
 Proof.
-  intros present st desc env. unfold exec_put.
+  intros present cur st desc env. unfold exec_put.
   destruct present; [|simpl; intros [H|H]; discriminate].
   destruct (String.eqb st "") eqn:E.
   - apply String.eqb_eq in E. subst st.
-    destruct desc, env; simpl; intros [H|H]; try discriminate; auto.
+    destruct desc, env, (env_updatable cur); simpl; intros [H|H]; try discriminate; auto.
   - destruct desc; [simpl; intros [H|H]; discriminate|].
     destruct env, (parse_state st); cbv; intros [H|H]; discriminate.
 Qed.
 
-Lemma exec_put_other_state_rejected : forall st desc env,
+Lemma exec_put_other_state_rejected : forall cur st desc env,
   st <> "" -> parse_state st <> PAUSED -> parse_state st <> RUNNING -> is_completed (parse_state st) = false ->
-  exec_put true st desc env = reject 400.
+  exec_put true cur st desc env = reject 400.
 Proof.
-  intros st desc env Hne H1 H2 H3. unfold exec_put.
+  intros cur st desc env Hne H1 H2 H3. unfold exec_put.
   destruct (String.eqb st "") eqn:E; [apply String.eqb_eq in E; contradiction|].
   destruct desc, env, (parse_state st); simpl in *; try reflexivity; try congruence;
     try (cbv in H3; discriminate).
 Qed.
 
-Lemma exec_put_absent : forall st desc env, exec_put false st desc env = reject 404.
+Lemma exec_put_absent : forall cur st desc env, exec_put false cur st desc env = reject 404.
 Proof. reflexivity. Qed.
 
 (* --- execution DELETE --- *)
 
-Lemma exec_delete_guard : forall present force cur,
-  o_deleted (exec_delete present force cur) = true <->
-  present = true /\ (force = true \/ is_completed cur = true).
+Lemma exec_delete_guard : forall cv present force cur,
+  o_deleted (exec_delete cv present force cur) = true <->
+  present = true /\ (forced cv force = true \/ is_completed cur = true).
 Proof.
-  intros present force cur. unfold exec_delete.
-  destruct present, force, (is_completed cur); simpl; split; intro H; try discriminate; auto;
+  intros cv present force cur. unfold exec_delete.
+  destruct present, (forced cv force), (is_completed cur); simpl; split; intro H; try discriminate; auto;
     destruct H as [? [?|?]]; discriminate.
 Qed.
 
-Lemma exec_delete_unfinished : forall cur,
-  is_completed cur = false -> exec_delete true false cur = reject 403.
-Proof. intros cur H. unfold exec_delete. rewrite H. reflexivity. Qed.
+Lemma exec_delete_unfinished : forall cv cur force,
+  is_completed cur = false -> forced cv force = false -> exec_delete cv true force cur = reject 403.
+Proof. intros cv cur force H F. unfold exec_delete. rewrite H, F. reflexivity. Qed.
+
+(* the property as meant: no deletion of an unfinished execution unless the client meant force.
+   It holds for every text the conversion reads as the client means it ... *)
+Lemma exec_delete_without_force_conditional : forall cv present force cur,
+  forced cv force = intended_force force ->
+  is_completed cur = false -> intended_force force = false ->
+  o_deleted (exec_delete cv present force cur) = false.
+Proof.
+  intros cv present force cur Hsame Hc Hi. unfold exec_delete.
+  rewrite Hsame, Hi, Hc. destruct present; reflexivity.
+Qed.
+
+(* ... hence for every text when the method parses the text itself ... *)
+Lemma exec_delete_without_force_parsed : forall present force cur,
+  is_completed cur = false -> intended_force force = false ->
+  o_deleted (exec_delete ConvStrutils present force cur) = false.
+Proof. intros. apply exec_delete_without_force_conditional; auto. Qed.
+
+(* ... and fails for the bool(text) conversion: force=false deletes a RUNNING execution *)
+Lemma exec_delete_without_force_refuted : exists force cur,
+  intended_force force = false /\ is_completed cur = false /\
+  o_deleted (exec_delete ConvPyBool true force cur) = true /\
+  o_status (exec_delete ConvPyBool true force cur) = 204.
+Proof. exists (Some "false"), RUNNING. vm_compute. repeat split. Qed.
+
+(* for the conversion found in the source: exactly one of the two applies *)
+Lemma exec_delete_source : 
+  (exec_delete_force_conv = ConvStrutils /\
+     forall present force cur, is_completed cur = false -> intended_force force = false ->
+       o_deleted (exec_delete exec_delete_force_conv present force cur) = false) \/
+  (exec_delete_force_conv = ConvPyBool /\
+     exists force cur, intended_force force = false /\ is_completed cur = false /\
+       o_deleted (exec_delete exec_delete_force_conv true force cur) = true).
+Proof.
+  destruct exec_delete_force_conv eqn:E.
+  - right. split; [reflexivity|]. destruct exec_delete_without_force_refuted as (f & c & A & B & C & _).
+    exists f, c. auto.
+  - left. split; [reflexivity|]. apply exec_delete_without_force_parsed.
+Qed.
 
 (* --- task PUT --- *)
 
@@ -543,28 +583,28 @@ Proof.
   repeat match goal with |- context [if ?b then _ else _] => destruct b end; eauto.
 Qed.
 
-Lemma exec_put_shape : forall p st d e,
-  exec_put p st d e = reject 404 \/ exec_put p st d e = reject 400 \/
-  (exists a b, exec_put p st d e = mkOut 200 NoCall a b false) \/
-  exists c, exec_put p st d e = accept c.
+Lemma exec_put_shape : forall p cu st d e,
+  exec_put p cu st d e = reject 404 \/ exec_put p cu st d e = reject 400 \/ exec_put p cu st d e = reject 403 \/
+  (exists a b, exec_put p cu st d e = mkOut 200 NoCall a b false) \/
+  exists c, exec_put p cu st d e = accept c.
 Proof.
   intros. unfold exec_put.
-  repeat match goal with |- context [if ?b then _ else _] => destruct b end; eauto 6.
+  repeat match goal with |- context [if ?b then _ else _] => destruct b end; eauto 8.
 Qed.
 
 Lemma refusals_write_nothing :
-  (forall p st d e, o_status (exec_put p st d e) <> 200 ->
-     exec_put p st d e = reject (o_status (exec_put p st d e))) /\
-  (forall p f c, o_status (exec_delete p f c) <> 204 ->
-     exec_delete p f c = reject (o_status (exec_delete p f c))) /\
+  (forall p cu st d e, o_status (exec_put p cu st d e) <> 200 ->
+     exec_put p cu st d e = reject (o_status (exec_put p cu st d e))) /\
+  (forall cv p f c, o_status (exec_delete cv p f c) <> 204 ->
+     exec_delete cv p f c = reject (o_status (exec_delete cv p f c))) /\
   (forall p n w st c r wi, o_status (task_put p n w st c r wi) <> 200 ->
      task_put p n w st c r wi = reject (o_status (task_put p n w st c r wi))).
 Proof.
   split; [|split].
-  - intros p st d e.
-    destruct (exec_put_shape p st d e) as [E|[E|[(a & b & E)|(c & E)]]]; rewrite E; simpl; intro H;
+  - intros p cu st d e.
+    destruct (exec_put_shape p cu st d e) as [E|[E|[E|[(a & b & E)|(c & E)]]]]; rewrite E; simpl; intro H;
       try reflexivity; congruence.
-  - intros p f c. unfold exec_delete. destruct p, f, (is_completed c); simpl; intro H; try reflexivity; congruence.
+  - intros cv p f c. unfold exec_delete. destruct p, (forced cv f), (is_completed c); simpl; intro H; try reflexivity; congruence.
   - intros p n w st c r wi.
     destruct (task_put_shape p n w st c r wi) as [E|[E|(a & b & E)]]; rewrite E; simpl; intro H;
       try reflexivity; congruence.
